@@ -152,6 +152,56 @@ func runC02(r *Run, rng *Rng, thorough bool) {
 				tamperCase(r, cls+"splice", known, v, cb.k.id)
 				tamperCase(r, cls+"splice", known, v, ok2.id)
 			}
+			// the protected header re-serialised: same map, other bytes (non-shortest heads), original signature
+			if pn, _, err := parseNode(p1, 0); err == nil && pn.Kind == kMap && len(pn.Pairs) == 1 {
+				for _, w := range []int{1, 2, 4, 8} {
+					for which := 0; which < 3; which++ {
+						q := pn.clone()
+						switch which {
+						case 0:
+							q.W = w
+						case 1:
+							q.Pairs[0][0].W = w
+						default:
+							q.Pairs[0][1].W = w
+						}
+						v := mk(q.Bytes(), pl1, s1)
+						tamperCase(r, cls+"protected-reserialised", known, v, cb.k.id)
+					}
+				}
+				q := pn.clone()
+				q.Indef = true
+				tamperCase(r, cls+"protected-reserialised", known, mk(q.Bytes(), pl1, s1), cb.k.id)
+				// the protected bstr itself with a non-shortest head: same content bytes -> still the signed message
+				for _, w := range []int{1, 2, 4} {
+					pb := nBstr(p1)
+					pb.W = w
+					tamperCase(r, cls+"protected-bstr-head", known, envelope(pb, nMap(), nBstr(pl1), nBstr(s1)), cb.k.id)
+				}
+			}
+			// one Evidence object used repeatedly: right key, then a wrong key; a second token, then a wrong key
+			{
+				ops := []*evOp{{Kind: "know", Key: cb.k.id, Bytes: tok}, {Kind: "know", Key: cb.k.id, Bytes: tok2}, {Kind: "know", Key: ok2.id, Bytes: tok3},
+					{Kind: "unmarshal", Bytes: tok}, {Kind: "verify", Key: cb.k.id}, {Kind: "verify", Key: ok2.id}, {Kind: "verify", Key: cb.k.id},
+					{Kind: "unmarshal", Bytes: tok2}, {Kind: "verify", Key: ok2.id}, {Kind: "verify", Key: cb.k.id},
+					{Kind: "unmarshal", Bytes: tok3}, {Kind: "verify", Key: cb.k.id}, {Kind: "verify", Key: ok2.id}}
+				want := []string{"-", "-", "-", "ok", "ok", "err", "ok", "ok", "err", "ok", "ok", "err", "ok"}
+				ev := &psa.Evidence{}
+				res := make([]string, len(ops))
+				protos := make([]string, len(ops))
+				for i, o := range ops {
+					res[i] = stepString(o, o.exec(ev))
+					protos[i] = o.proto()
+				}
+				r.Case(cls+"evidence-reused", false, fmt.Sprintf("ev keys=%s ops=%s", keysProto(), strings.Join(protos, "|")),
+					"r="+strings.Join(res, ",")+" claims="+evClaimsDesc(ev))
+				for i := range ops {
+					if res[i] != want[i] {
+						r.Fail("wrong-key-on-reused-evidence", fmt.Sprintf("step %d (%s): %s, expected %s", i, trunc(protos[i], 40), res[i], want[i]))
+						break
+					}
+				}
+			}
 			// truncations
 			for n := 0; n < len(tok); n += 1 + len(tok)/40 {
 				tamperCase(r, cls+"truncate", known, tok[:n], cb.k.id)
@@ -253,6 +303,30 @@ func runC03(r *Run, rng *Rng, thorough bool) {
 				}
 				if err := ev2.Verify(k.pub); err != nil {
 					r.Fail("verify-decoded", fmt.Sprintf("verification with the matching key fails: %v", err))
+				}
+				// re-sign on the Evidence that decoded the token, with another key/algorithm: the new token
+				// carries the new signer's algorithm and verifies under the new key
+				{
+					k2 := ks[(k.id+2)%len(ks)]
+					o4 := &evOp{Kind: "unmarshal", Bytes: st2.token}
+					o5 := &evOp{Kind: "vsign", Key: k2.id, Alg: k2.algs[0], Mode: "good"}
+					o6 := &evOp{Kind: "verify", Key: k2.id}
+					ev3 := &psa.Evidence{}
+					s4, s5, s6 := o4.exec(ev3), o5.exec(ev3), o6.exec(ev3)
+					r.Case(fmt.Sprintf("%v/resign", alg), false, fmt.Sprintf("ev keys=%s ops=know:%d:%s|%s|%s|%s", keysProto(), k.id, hx(st2.token), o4.proto(), o5.proto(), o6.proto()),
+						"r=-,"+stepString(o4, s4)+","+stepString(o5, s5)+","+stepString(o6, s6)+" claims="+evClaimsDesc(ev3))
+					if s5.res != "ok" || s6.res != "ok" {
+						r.Fail("resign", fmt.Sprintf("decode, then ValidateAndSign with another key: %s, Verify: %s", trunc(s5.res, 6), s6.res))
+					} else {
+						ev4, err := psa.DecodeEvidenceFromCOSE(append([]byte{}, s5.token...))
+						p4, _, _, _ := envelopeParts(s5.token)
+						pn4, _, _ := parseNode(p4, 0)
+						if err != nil || ev4.Verify(k2.pub) != nil {
+							r.Fail("resign", "the re-signed token does not decode / verify under the new signer's key")
+						} else if pn4 == nil || pn4.Kind != kMap || lookupInt(pn4, 1) == nil || !lookupInt(pn4, 1).isInt(int64(k2.algs[0])) {
+							r.Fail("protected-alg", "the re-signed token's protected header does not carry the new signer's algorithm")
+						}
+					}
 				}
 				// the claims exposed are the decoding of the payload the signature covers
 				c3, err := psa.DecodeClaimsFromCBOR(append([]byte{}, ev2.VerifMessage().Payload...))
